@@ -305,7 +305,7 @@ class C01(Check):
         data, info = F.build(case['content'])
         n = len(data)
         fa = stats['faults']
-        pr = stats['probes']
+        pr = self._pr = stats['probes']
 
         def bump(d, k, v=1):
             d[k] = d.get(k, 0) + v
@@ -399,6 +399,11 @@ class C01(Check):
                 r = imgsim.drive_bare(name, data, sizes, qp)
                 per[name] = r['verdict']
                 errors[name] = r['error']
+                for pk in r['probes']:
+                    self._pr[pk] = self._pr.get(pk, 0) + 1
+                if name == 'vmdk' and getattr(r['insp'], 'desc_text', None):
+                    self._pr['vmdk_descriptor_parsed'] = \
+                        self._pr.get('vmdk_descriptor_parsed', 0) + 1
                 for b in r['region_bad']:
                     b['inspector'] = name
                     bad.append(b)
